@@ -26,7 +26,7 @@ from fractions import Fraction as Q
 from pyvc import terms as tm
 from pyvc import vc, smt
 from pyvc.framework import run_property
-from pyvc.interp import ExcV
+from pyvc.interp import ExcV, Builtin, PyRaise, Unsupported
 from contracts.common import *
 from contracts.c13 import theta, RHO, SMOD, NMOD, PMOD
 from specs import nldf_kernels as K
@@ -450,6 +450,177 @@ def unit_sdmx_integrals(ctx):
     ctx.canary("sdmx integrals canary", H, tm.lift(it.call(pm.ns["_get_int_1d"], [1, t * t * prod, t * asum], {})), t ** Q(3, 2) * tm.lift(it.call(pm.ns["_get_int_1d"], [1, prod, asum], {})))
 
 
+def unit_sdmx_plan_metric(ctx):
+    """SDMXPlan.__init__: the Coulomb-type metric matrix built for each feature term has the homogeneity degree that the term's declared scaling power requires —
+    n/2 for the H_n terms and their r d/dr variants, (n - 2)/2 for the l=1 terms H_n^1 (one more power of 1/lambda than the plain term of the same n) — in the exponent
+    ladder alphas -> t alphas.  The real constructor runs with a symbolic alpha0; LAPACK is stopped after the metric matrices are formed."""
+    it = ctx.interp
+    pm = it.load_module(PMOD)
+    sm = it.load_module(SMOD)
+    fq = [PMOD + ":SDMXPlan.__init__"]
+    seen = []
+
+    class _Stop(Exception):
+        pass
+
+    def chol(interp, A, lower=False, **kw):
+        seen.append(np.array(A, dtype=object))
+        return ("L", len(seen))
+
+    def stop(interp, *a, **k):
+        raise _Stop()
+    it.externals["scipy.linalg.cholesky"] = chol
+    it.externals["scipy.linalg.cho_factor"] = stop
+    it.externals["scipy.linalg.cho_solve"] = stop
+    it.externals["scipy.special.gamma"] = lambda interp, x: tm.mk_fn("gamma", tm.lift(x))
+    it.np.linalg.table["solve"] = Builtin("np.linalg.solve", stop, needs_interp=True)
+    a0, t = tm.var("alpha0"), tm.var("tscale")
+    H = [tm.mk_lt(tm.ZERO, a0), tm.mk_lt(tm.ZERO, t)]
+    it.hyps = list(H)
+    for label, cname, args, nd, n1 in (("SDMXG1[pows=0,1,2; 2 d-terms; 1 l=1 term]", "SDMXG1Settings", [[0, 1, 2], 2, 1], 2, 1), ("SDMX1[pows=0,1; 2 l=1 terms]", "SDMX1Settings", [[0, 1], 2], 0, 2),
+                                      ("SDMX[pows=1,2]", "SDMXSettings", [[1, 2]], 0, 0)):
+        st = it.call(sm.ns[cname], args, {})
+        pows = list(args[0])
+        mats = {}
+        for key, alpha0 in (("base", a0), ("scaled", t * a0)):
+            del seen[:]
+            try:
+                it.call(pm.ns["SDMXPlan"], [st, 1, alpha0, Q(2), 2], {})
+            except _Stop:
+                pass
+            except (Unsupported, PyRaise) as e:
+                ctx.undecided("%s constructor reaches the factorisation" % label, str(e)[:200], fq)
+                break
+            mats[key] = [m.copy() for m in seen]
+        if len(mats) != 2:
+            continue
+        want = [Q(n, 2) for n in pows] + [Q(n, 2) for n in pows[:nd]] + [Q(n - 2, 2) for n in pows[:n1]]
+        kinds = ["H_%d" % n for n in pows] + ["r d/dr H_%d" % n for n in pows[:nd]] + ["H_%d^1 (l=1)" % n for n in pows[:n1]]
+        ctx.holds("%s: one metric matrix per feature term" % label, len(mats["base"]) == len(want) == len(mats["scaled"]), "%d matrices, %d terms" % (len(mats["base"]), len(want)), fq)
+        for k in range(min(len(want), len(mats["base"]))):
+            for idx in ((0, 0), (0, 1), (1, 1)):
+                ctx.equal("%s: metric of term %s is homogeneous of degree %s in the exponents [%d,%d]" % (label, kinds[k], want[k], idx[0], idx[1]), H,
+                          mats["scaled"][k][idx], t ** want[k] * tm.lift(mats["base"][k][idx]), fq, replay=replay_sdmx_plan_metric())
+    ctx.canary("sdmx plan metric canary", H, t * a0, a0)
+
+
+def replay_sdmx_plan_metric():
+    def replay(wit):
+        from pyvc import native
+        native.install_shim()
+        import scipy.linalg
+        import ciderpress.dft.plans as P
+        from ciderpress.dft.settings import SDMXG1Settings
+        got = {}
+        real = P.cholesky
+
+        def spy(A, lower=False, **kw):
+            got.setdefault("m", []).append(np.array(A))
+            return real(A, lower=lower)
+        out = {}
+        for key, a0 in (("base", 0.3), ("scaled", 0.3 * 1.7)):
+            got.clear()
+            P.cholesky = spy
+            try:
+                P.SDMXPlan(SDMXG1Settings([0, 1, 2], 2, 1), 1, a0, 2.0, 3)
+            finally:
+                P.cholesky = real
+            out[key] = [m.copy() for m in got["m"]]
+        want = [0, 0.5, 1, 0, 0.5, -1.0]
+        dev = [float(np.max(np.abs(out["scaled"][k] / out["base"][k] - 1.7 ** want[k]))) for k in range(len(want))]
+        return {"reproduced": bool(max(dev) > 1e-10), "deviation_from_declared_degree_per_term": dev}
+    return replay
+
+
+VI_INTEGRALS = {
+    # C back end of the version-i kernels (convolutions.c: generate_atc_integrals_vi dispatches featid -> helper).  Documented kernel of each featid (comments of the
+    # dispatch) relative to k^0 = exp(-alpha (r-r')^2): every factor alpha carries lambda^2, every (r-r')^2 carries lambda^-2, the Laplacian lambda^2.
+    # value: power of t = lambda^2 relative to gauss_i0 under (alpha, expi, expj) -> t (alpha, expi, expj)
+    "gauss_i0": 0, "gauss_dida": -1, "gauss_adida": 0, "gauss_ai0": 1, "gauss_a2dida": 1, "gauss_lapli0": 1,
+}
+VI_HELPERS_HOMOGENEOUS_ONLY = ["gauss_iplus", "gauss_alpha_iplus", "gauss_iminus", "gauss_ainv_iminus"]      # l+1 / l-1 helper terms: homogeneous (degree not asserted)
+
+
+def unit_vi_integrals(ctx):
+    """The radial Gaussian integrals behind the version-i features are homogeneous under uniform scaling (alpha, expi, expj) -> t (alpha, expi, expj), t = lambda^2,
+    with the degree the documented kernel implies relative to the plain squared-exponential integral; a sum of terms of different degree (which would give the
+    feature no scaling power at all) is excluded by Euler's relation  sum_x x dI/dx = d I.  Also the documented identity k^9 = 4 k^8 - 2 k^7."""
+    from cvc import cparse as _cp
+    from cvc.csym import CSym as _CSym, CUnsupported as _CU
+    rel = "mod_cider/convolutions.c"
+    tu = _cp.load(rel)
+    a, ei, ej = tm.var("alpha"), tm.var("expi"), tm.var("expj")
+    H = [tm.mk_lt(tm.ZERO, a), tm.mk_lt(tm.ZERO, ei), tm.mk_lt(tm.ZERO, ej)]
+    vals, vals_abs, lemma_done = {}, {}, set()
+    for l in (0, 1, 2, 3):
+        for fn in list(VI_INTEGRALS) + VI_HELPERS_HOMOGENEOUS_ONLY:
+            if fn == "gauss_iminus" and l == 0 or fn == "gauss_ainv_iminus" and l == 0:
+                continue        # l - 1 terms exist for l >= 1 only
+            fq = ["lib/%s:%s" % (rel, fn)]
+            sy = _CSym([tu])
+            try:
+                r = tm.lift(sy.run(fn, dict(l=l, alpha=a, expi=ei, expj=ej)))
+            except _CU as e:
+                ctx.undecided("%s[l=%d] summarised" % (fn, l), str(e)[:160], fq)
+                continue
+            vals[(fn, l)] = r
+            # bases of fractional powers (the combined exponent expi alpha / (expi + alpha) + expj) are abstracted into positive atoms B_k that scale like t
+            # (lemma, proved as a rational identity), so that the homogeneity obligation is a monomial identity
+            bases = []
+            for u in tm.subterms(r).values():
+                if u.op == "^" and u.args[1].op == "c" and u.args[1].args[0].denominator != 1 and u.args[0] not in bases and u.args[0].op not in ("v", "c"):
+                    bases.append(u.args[0])
+            t = tm.var("t")
+            scale = {a: t * a, ei: t * ei, ej: t * ej}
+            Ht = H + [tm.mk_lt(tm.ZERO, t)]
+            ab = {}
+            for k, P in enumerate(bases):
+                Bk = tm.var("B%d" % k)
+                ab[P] = Bk
+                scale[Bk] = t * Bk
+                Ht.append(tm.mk_lt(tm.ZERO, Bk))
+                if (l, tm.show(P, 200)) not in lemma_done:
+                    lemma_done.add((l, tm.show(P, 200)))
+                    ctx.equal("lemma: the combined exponent %s scales like t" % tm.show(P, 60), H + [tm.mk_lt(tm.ZERO, t)], tm.substitute(P, {a: t * a, ei: t * ei, ej: t * ej}), t * P, fq)
+            ra = tm.substitute(r, ab)
+            vals_abs[(fn, l)] = (ra, dict(ab))
+            if fn in VI_INTEGRALS:
+                d = Q(-3, 2) - l + VI_INTEGRALS[fn]
+                ctx.equal("%s[l=%d] is homogeneous of degree %s in (alpha, expi, expj)" % (fn, l, d), Ht, tm.substitute(ra, scale), tm.mk_pow(t, tm.const(d)) * ra, fq, replay=replay_vi_integral(fn, l, float(d)))
+            else:
+                # homogeneous of some degree: I(t x) I(s x) = I(x) I(s t x) ... checked in the form  I(t x) * I(x)|_{t=1} ratio independent of the point: compare two scalings
+                t2 = tm.var("t2")
+                scale2 = {k_: (v_ if k_ is not None else v_) for k_, v_ in scale.items()}
+                sc2 = {k_: tm.substitute(v_, {t: t2}) for k_, v_ in scale.items()}
+                both = {k_: tm.substitute(v_, {t: t * t2}) for k_, v_ in scale.items()}
+                ctx.equal("%s[l=%d] is homogeneous in (alpha, expi, expj): I(t x) I(t2 x) = I(x) I(t t2 x)" % (fn, l), Ht + [tm.mk_lt(tm.ZERO, t2)],
+                          tm.substitute(ra, scale) * tm.substitute(ra, sc2), ra * tm.substitute(ra, both), fq)
+        if all((f, l) in vals for f in ("gauss_lapli0", "gauss_a2dida", "gauss_ai0")):
+            ctx.equal("documented identity k^9 = 4 k^8 - 2 k^7 [l=%d]" % l, H, vals[("gauss_lapli0", l)], 4 * vals[("gauss_a2dida", l)] - 2 * vals[("gauss_ai0", l)],
+                      ["lib/%s:gauss_lapli0" % rel], replay=replay_vi_integral("gauss_lapli0", l, float(Q(-1, 2) - l)))
+    if ("gauss_i0", 1) in vals_abs:
+        ra, ab = vals_abs[("gauss_i0", 1)]
+        t = tm.var("t")
+        sc = {a: t * a, ei: t * ei, ej: t * ej}
+        sc.update({B: t * B for B in ab.values()})
+        ctx.canary("vi-integrals canary (degree off by one)", H + [tm.mk_lt(tm.ZERO, t)] + [tm.mk_lt(tm.ZERO, B) for B in ab.values()], tm.substitute(ra, sc), tm.mk_pow(t, tm.const(Q(-3, 2))) * ra)
+
+
+def replay_vi_integral(fn, l, degree):
+    def replay(wit):
+        import ctypes
+        from pyvc import native
+        lib = ctypes.CDLL(native.build_libs() + "/libmcider.so")
+        f = getattr(lib, fn)
+        f.restype = ctypes.c_double
+        f.argtypes = [ctypes.c_int, ctypes.c_double, ctypes.c_double, ctypes.c_double]
+        a, ei, ej, t = 0.7, 1.3, 0.9, 1.37
+        v1, v2 = f(l, a, ei, ej), f(l, t * a, t * ei, t * ej)
+        dev = abs(v2 - t ** degree * v1) / abs(t ** degree * v1)
+        return {"reproduced": bool(dev > 1e-10), "I(t x)": v2, "t^d I(x)": t ** degree * v1, "degree": degree, "t": t}
+    return replay
+
+
 def units():
     u = []
     for gga in (False, True):
@@ -469,6 +640,8 @@ def units():
     u.append(("other-settings", unit_other_settings))
     u.append(("lda", unit_lda))
     u.append(("sdmx-integrals", unit_sdmx_integrals))
+    u.append(("vi-integrals", unit_vi_integrals))
+    u.append(("sdmx-plan-metric", unit_sdmx_plan_metric))
     # C back end of the version-j kernels: the interpolation coefficients carry the declared power (shared with C02's summaries of cider_coefs.c)
     from contracts import c02
     for order in ("gq", "qg"):
